@@ -86,10 +86,12 @@ def units(ctx):
           # Euclidean step: dividend = q * d + r + E with |E_k| <= tol, deg r < deg d
           "divisor.coefficients@.len() >= 2 ==> res is Ok && res->Ok_0.1.coefficients@.len() < divisor.coefficients@.len() && res->Ok_0.1.wf() && res->Ok_0.0.wf() "
           "&& exists|err: Seq<real>| #![trigger division_identity(*self, res->Ok_0.0, *divisor, res->Ok_0.1, err)] "
-          "division_identity(*self, res->Ok_0.0, *divisor, res->Ok_0.1, err) && err_ok(err, self.tolerance@, 0)")
+          "division_identity(*self, res->Ok_0.0, *divisor, res->Ok_0.1, err) && err_ok(err, self.tolerance@, 0)",
+          # quotient and remainder of a Euclidean step carry the dividend's zero tolerance (what a caller that deflates repeatedly relies on: hermite_zeros, C14 unit zeros)
+          "divisor.coefficients@.len() >= 2 ==> res->Ok_0.0.tolerance == self.tolerance && res->Ok_0.1.tolerance == self.tolerance && res->Ok_0.0.coefficients@.len() <= self.coefficients@.len()")
     f.loop(1, invariant=[
         "quotient.wf() && remainder.wf() && divisor.coefficients@.len() >= 2",
-        "remainder.tolerance == self.tolerance",
+        "remainder.tolerance == self.tolerance", "quotient.tolerance == self.tolerance",
         "remainder.coefficients@.len() <= self.coefficients@.len() && quotient.coefficients@.len() <= self.coefficients@.len()",
         "err.len() == self.coefficients@.len() && err_ok(err, self.tolerance@, remainder.coefficients@.len() as int)",
         "division_identity(*self, quotient, *divisor, remainder, err)",
@@ -346,6 +348,7 @@ def complex_unit(prop="C12"):
 DECIDED = [
     "divide: divisor = constant within the zero tolerance -> Err; constant divisor -> coefficients scaled by 1/d0 (after dropping leading coefficients within the tolerance), remainder 0",
     "divisor of degree >= 1 with non-zero leading coefficient: the loop terminates (decreases: remainder length), returns Ok((q, r)) with deg r < deg d and dividend_k = (q*d)_k + r_k + E_k for every k, where (q*d)_k is the convolution and |E_k| <= tolerance (E collects exactly the coefficients dropped as 'zero', at most one per power)",
+    "quotient and remainder of a Euclidean step carry the dividend's zero tolerance, and the quotient is not longer than the dividend (what callers that deflate repeatedly rely on)",
     "the += / -= operators used by the loop are re-verified in the unit",
     "divide() and purge_leading() at the COMPLEX instantiation (unit divide_complex; Polynomial::roots deflates in complex arithmetic also for real input): a constant divisor with BOTH parts within the tolerance -> Err; "
     "division by a constant = multiplication by its reciprocal; the Euclidean loop terminates, the remainder is shorter than the divisor, and a coefficient is dropped (purge_leading, trim loop) only if BOTH its parts "
